@@ -101,6 +101,11 @@ type World struct {
 	// selected files) are scheduling decisions. Off: they cost nothing. Set by the scenario (root)
 	// before it starts the tasks that may reach such points.
 	PreemptOn bool
+	// StallPM / StallBudget: at a preemption point the task is, with this probability (per mille, drawn
+	// on the root) and at most StallBudget times per run, descheduled for a drawn while of SIMULATED time
+	// (a slow or starved thread: 1 ms .. 5 s) while everything else goes on. The budget is per task.
+	StallPM     int
+	StallBudget int
 }
 
 var cur *World
@@ -384,6 +389,7 @@ type Task struct {
 	done    bool
 	dead    bool
 	w       *World
+	stalls  int // stalls taken at preemption points (root only)
 }
 
 // Crashed is the panic value that unwinds a task whose node was killed.
@@ -707,10 +713,25 @@ func Preempt(site string) {
 	if w == nil || !w.PreemptOn {
 		return
 	}
-	if w.current() == nil {
+	t := w.current()
+	if t == nil {
 		return
 	}
-	w.Park("preempt", site, nil, nil)
+	if w.StallPM <= 0 {
+		w.Park("preempt", site, nil, nil)
+		return
+	}
+	d := w.Park("preempt", site, nil, func() any {
+		if t.stalls >= w.StallBudget || !w.Chance("stall", w.StallPM) {
+			return time.Duration(0)
+		}
+		t.stalls++
+		w.Fault("task-stalled-at-preemption-point")
+		return []time.Duration{time.Millisecond, 50 * time.Millisecond, time.Second, 5 * time.Second}[w.Choose("stall-for", 4)]
+	}).(time.Duration)
+	if d > 0 {
+		time.Sleep(d)
+	}
 }
 
 // Yield is a plain scheduling point.
